@@ -113,3 +113,18 @@ PROPS["C20"] = {
         {"bin": "c20", "quick": {"cases": 3000, "workers": 16, "budget": 300}, "thorough": {"cases": 20000, "workers": 16, "budget": 3000}},
     ],
 }
+
+PROPS["C02"] = {
+    "level": "exploration",
+    "engine": "enumeration",
+    "technique": "enumeration of stored codes / inputs (exhaustive for 8- and 16-bit) against a reference conversion model with pinned arithmetic, in the default and the SSE2 build",
+    "rule": "enumeration per (encoding x byte order x API type x setting combination): read kernels over all 2^8 codes (PCM_S8, PCM_U8, ULAW, ALAW), all 2^16 codes (PCM_16), boundary set {0, +-1, MIN, MAX, +-2^k, +-2^k+-1} + 2^14 (quick) / 2^20 (thorough) random codes (PCM_24, PCM_32), boundary + random values (FLOAT, DOUBLE) under every combination of NORM_FLOAT, NORM_DOUBLE, CLIPPING (and SCALE_FLOAT_INT_READ for float files); "
+            "write kernels over all 2^16 shorts, boundary + random ints, boundary (+-1, 1-ulp, k+0.5 ties, just in/out of range) + random float/double inputs under NORM_*, CLIPPING (and SCALE_INT_FLOAT_WRITE for float files), file bytes compared with the model; every container/endian option that offers a PCM/float encoding gets the boundary set through 4 write x 4 read types; both the default and the -DUSE_SSE2 build of the library; non-trivial = a (kernel, settings, value) triple on which the model makes an assertion (counted)",
+    "assumptions": BASE_ASSUME + ["float->int writes without clipping are only asserted for in-range input; with clipping on, in-range input may be scaled by 2^(w-1)-1 or by 2^(w-1) (the documentation only promises 1.0 -> largest integer), out-of-range input must give exactly MAX / MIN",
+                                  "SFC_SET_SCALE_FLOAT_INT_READ has no documented formula: only order preservation, |r| <= MAX and peak -> MAX within 1e-4 are asserted",
+                                  "G.711 write-side code mapping is C20's subject; here G.711 is covered on the read side (decode -> short/int/float/double under the NORM settings)"],
+    "stages": [
+        {"bin": "c02", "quick": {"cases": 0, "workers": 16, "budget": 300}, "thorough": {"cases": 0, "workers": 16, "budget": 1800}},
+        {"bin": "c02", "variant": "sse2", "tag": ".sse2", "quick": {"cases": 0, "workers": 16, "budget": 300}, "thorough": {"cases": 0, "workers": 16, "budget": 1800}},
+    ],
+}
